@@ -9,7 +9,15 @@ import warnings
 
 sys.path.insert(0, os.path.dirname(os.path.abspath(__file__)))
 warnings.simplefilter("ignore")
+import reposhim  # noqa: E402,F401
 import common  # noqa: E402
+
+
+def kernel_stage(run):
+    """translator validation of the arithmetic kernels the property's `Cxx_kernel_*` theorems are stated about"""
+    import formlib
+    if run.prop in formlib.KERNELS:
+        formlib.validate_kernels(run)
 
 
 def main():
@@ -39,6 +47,7 @@ def main():
             # whether the recorded failure (same key) or broken tie (same name) recurs on /repo's current tree.  Writes no evidence.
             run = common.Run(a.prop, payload.get("tier", a.tier), int(payload.get("seed", seed)))
             common.proof_stage(run)
+            kernel_stage(run)
             mod.check(run)
             if payload.get("kind") == "broken-tie":
                 names = {t.get("name") for t in payload.get("broken_ties", [])}
@@ -53,6 +62,7 @@ def main():
                 print("replay: the recorded %s does not recur on the current tree (tier %s, seed %s)" % (payload.get("kind"), run.tier, run.seed))
             return 1 if again else 0
         common.proof_stage(run)
+        kernel_stage(run)
         mod.check(run)
         return run.finish(level=getattr(mod, "LEVEL", "proof"))
     except common.InfraError as e:
